@@ -23,41 +23,131 @@
  * case is unit parse.proto_found); getservbyname returns nothing or a record with an arbitrary 16-bit
  * port, the expected port text is then its decimal rendering (exact "%d" model of snprintf below).
  *
- *   exact.parse        parse result == tuple
- *   exact.parse_qslash the same with '/' allowed in a query that follows a host directly (RFC 3986 allows it)
- *   exact.roundtrip    parse(unparse(parse(t))) == parse(t)
+ * (cbmc 6.11 dies with a stack overflow in symex on this TU under --pointer-overflow-check: that one
+ * check is off here (checks_off); it is on in the P units of the same functions.)
+ *
+ *   exact.parse.{n,p}{n,u}      parse result == tuple   (split: protocol absent/present x user absent/present)
+ *   exact.parse_qslash.{n,p}    the same with '/' allowed in a query that follows the host directly (RFC 3986 allows it)
+ *   exact.roundtrip.{n,p}{n,u}  parse(unparse(parse(t))) == parse(t), URL <= 10 characters
  */
 /*@unit
-name: exact.parse
-define: U_PARSE, URL_MAX=14, VERIF_OWN_STRCHR, VERIF_OWN_STRLEN, VERIF_OWN_SNPRINTF, VERIF_OWN_LOOKUPS, VERIF_NO_ASSUMED_STR_CONTRACTS
+name: exact.parse.nn
+define: U_PARSE, URL_MAX=14, U_PROTO=0, U_USER=0, VERIF_OWN_STRCHR, VERIF_OWN_STRLEN, VERIF_OWN_SNPRINTF, VERIF_OWN_LOOKUPS, VERIF_NO_ASSUMED_STR_CONTRACTS
 src: url.c
 tier: B
-bound: URL text <= 14 characters over {a,:,/,@,?,.,digit}, each component <= 5 characters, each optional component present/absent; exact executable str models instead of str.c; loops unwound 16 with unwinding assertions
+bound: URL text <= 14 characters over {a,:,/,@,?,.,digit}, each component <= 5 characters, optional components present/absent (protocol absent, user absent); exact executable str models instead of str.c; loops unwound 16 with unwinding assertions
 unwind: 16
 backend: cadical
 timeout: 280
+checks_off: --pointer-overflow-check
 funcs: spif_url_new_from_ptr, spif_url_init_from_ptr, spif_url_parse
 */
 /*@unit
-name: exact.parse_qslash
-define: U_PARSE, U_QUERY_SLASH, URL_MAX=14, VERIF_OWN_STRCHR, VERIF_OWN_STRLEN, VERIF_OWN_SNPRINTF, VERIF_OWN_LOOKUPS, VERIF_NO_ASSUMED_STR_CONTRACTS
+name: exact.parse.nu
+define: U_PARSE, URL_MAX=14, U_PROTO=0, U_USER=1, VERIF_OWN_STRCHR, VERIF_OWN_STRLEN, VERIF_OWN_SNPRINTF, VERIF_OWN_LOOKUPS, VERIF_NO_ASSUMED_STR_CONTRACTS
 src: url.c
 tier: B
-bound: URL text <= 14 characters, query may contain '/', no path component; exact executable str models; loops unwound 16 with unwinding assertions
+bound: URL text <= 14 characters over {a,:,/,@,?,.,digit}, each component <= 5 characters, optional components present/absent (protocol absent, user present); exact executable str models instead of str.c; loops unwound 16 with unwinding assertions
 unwind: 16
 backend: cadical
 timeout: 280
+checks_off: --pointer-overflow-check
+funcs: spif_url_new_from_ptr, spif_url_init_from_ptr, spif_url_parse
+*/
+/*@unit
+name: exact.parse.pn
+define: U_PARSE, URL_MAX=14, U_PROTO=1, U_USER=0, VERIF_OWN_STRCHR, VERIF_OWN_STRLEN, VERIF_OWN_SNPRINTF, VERIF_OWN_LOOKUPS, VERIF_NO_ASSUMED_STR_CONTRACTS
+src: url.c
+tier: B
+bound: URL text <= 14 characters over {a,:,/,@,?,.,digit}, each component <= 5 characters, optional components present/absent (protocol present, user absent); exact executable str models instead of str.c; loops unwound 16 with unwinding assertions
+unwind: 16
+backend: cadical
+timeout: 280
+checks_off: --pointer-overflow-check
+funcs: spif_url_new_from_ptr, spif_url_init_from_ptr, spif_url_parse
+*/
+/*@unit
+name: exact.parse.pu
+define: U_PARSE, URL_MAX=14, U_PROTO=1, U_USER=1, VERIF_OWN_STRCHR, VERIF_OWN_STRLEN, VERIF_OWN_SNPRINTF, VERIF_OWN_LOOKUPS, VERIF_NO_ASSUMED_STR_CONTRACTS
+src: url.c
+tier: B
+bound: URL text <= 14 characters over {a,:,/,@,?,.,digit}, each component <= 5 characters, optional components present/absent (protocol present, user present); exact executable str models instead of str.c; loops unwound 16 with unwinding assertions
+unwind: 16
+backend: cadical
+timeout: 280
+checks_off: --pointer-overflow-check
+funcs: spif_url_new_from_ptr, spif_url_init_from_ptr, spif_url_parse
+*/
+/*@unit
+name: exact.parse_qslash.n
+define: U_PARSE, U_QUERY_SLASH, URL_MAX=14, U_PROTO=0, U_USER=-1, VERIF_OWN_STRCHR, VERIF_OWN_STRLEN, VERIF_OWN_SNPRINTF, VERIF_OWN_LOOKUPS, VERIF_NO_ASSUMED_STR_CONTRACTS
+src: url.c
+tier: B
+bound: URL text <= 14 characters over {a,:,/,@,?,.,digit}, each component <= 5 characters, optional components present/absent (protocol absent, query may contain '/', no path); exact executable str models instead of str.c; loops unwound 16 with unwinding assertions
+unwind: 16
+backend: cadical
+timeout: 280
+checks_off: --pointer-overflow-check
 funcs: spif_url_new_from_ptr, spif_url_parse
 */
 /*@unit
-name: exact.roundtrip
-define: U_ROUNDTRIP, URL_MAX=14, VERIF_OWN_STRCHR, VERIF_OWN_STRLEN, VERIF_OWN_SNPRINTF, VERIF_OWN_LOOKUPS, VERIF_NO_ASSUMED_STR_CONTRACTS
+name: exact.parse_qslash.p
+define: U_PARSE, U_QUERY_SLASH, URL_MAX=14, U_PROTO=1, U_USER=-1, VERIF_OWN_STRCHR, VERIF_OWN_STRLEN, VERIF_OWN_SNPRINTF, VERIF_OWN_LOOKUPS, VERIF_NO_ASSUMED_STR_CONTRACTS
 src: url.c
 tier: B
-bound: URL text <= 14 characters over {a,:,/,@,?,.,digit}, each component <= 5 characters, each optional component present/absent; exact executable str models; loops unwound 24 with unwinding assertions
-unwind: 24
+bound: URL text <= 14 characters over {a,:,/,@,?,.,digit}, each component <= 5 characters, optional components present/absent (protocol present, query may contain '/', no path); exact executable str models instead of str.c; loops unwound 16 with unwinding assertions
+unwind: 16
 backend: cadical
 timeout: 280
+checks_off: --pointer-overflow-check
+funcs: spif_url_new_from_ptr, spif_url_parse
+*/
+/*@unit
+name: exact.roundtrip.nn
+define: U_ROUNDTRIP, URL_MAX=10, U_PROTO=0, U_USER=0, VERIF_OWN_STRCHR, VERIF_OWN_STRLEN, VERIF_OWN_SNPRINTF, VERIF_OWN_LOOKUPS, VERIF_NO_ASSUMED_STR_CONTRACTS
+src: url.c
+tier: B
+bound: URL text <= 10 characters over {a,:,/,@,?,.,digit}, each component <= 5 characters, optional components present/absent (protocol absent, user absent); exact executable str models instead of str.c; loops unwound 21 with unwinding assertions
+unwind: 21
+backend: cadical
+timeout: 280
+checks_off: --pointer-overflow-check
+funcs: spif_url_new_from_ptr, spif_url_new_from_str, spif_url_parse, spif_url_unparse
+*/
+/*@unit
+name: exact.roundtrip.nu
+define: U_ROUNDTRIP, URL_MAX=10, U_PROTO=0, U_USER=1, VERIF_OWN_STRCHR, VERIF_OWN_STRLEN, VERIF_OWN_SNPRINTF, VERIF_OWN_LOOKUPS, VERIF_NO_ASSUMED_STR_CONTRACTS
+src: url.c
+tier: B
+bound: URL text <= 10 characters over {a,:,/,@,?,.,digit}, each component <= 5 characters, optional components present/absent (protocol absent, user present); exact executable str models instead of str.c; loops unwound 21 with unwinding assertions
+unwind: 21
+backend: cadical
+timeout: 280
+checks_off: --pointer-overflow-check
+funcs: spif_url_new_from_ptr, spif_url_new_from_str, spif_url_parse, spif_url_unparse
+*/
+/*@unit
+name: exact.roundtrip.pn
+define: U_ROUNDTRIP, URL_MAX=10, U_PROTO=1, U_USER=0, VERIF_OWN_STRCHR, VERIF_OWN_STRLEN, VERIF_OWN_SNPRINTF, VERIF_OWN_LOOKUPS, VERIF_NO_ASSUMED_STR_CONTRACTS
+src: url.c
+tier: B
+bound: URL text <= 10 characters over {a,:,/,@,?,.,digit}, each component <= 5 characters, optional components present/absent (protocol present, user absent); exact executable str models instead of str.c; loops unwound 21 with unwinding assertions
+unwind: 21
+backend: cadical
+timeout: 280
+checks_off: --pointer-overflow-check
+funcs: spif_url_new_from_ptr, spif_url_new_from_str, spif_url_parse, spif_url_unparse
+*/
+/*@unit
+name: exact.roundtrip.pu
+define: U_ROUNDTRIP, URL_MAX=10, U_PROTO=1, U_USER=1, VERIF_OWN_STRCHR, VERIF_OWN_STRLEN, VERIF_OWN_SNPRINTF, VERIF_OWN_LOOKUPS, VERIF_NO_ASSUMED_STR_CONTRACTS
+src: url.c
+tier: B
+bound: URL text <= 10 characters over {a,:,/,@,?,.,digit}, each component <= 5 characters, optional components present/absent (protocol present, user present); exact executable str models instead of str.c; loops unwound 21 with unwinding assertions
+unwind: 21
+backend: cadical
+timeout: 280
+checks_off: --pointer-overflow-check
 funcs: spif_url_new_from_ptr, spif_url_new_from_str, spif_url_parse, spif_url_unparse
 */
 #define VERIF_OWN_STRDUP
@@ -118,7 +208,7 @@ static SPIF_CONST_TYPE(strclass) s_class;       /* identity only */
 SPIF_TYPE(class) SPIF_CLASS_VAR(str) = (spif_class_t) &s_class;
 SPIF_TYPE(strclass) SPIF_STRCLASS_VAR(str) = &s_class;
 spif_bool_t spif_obj_set_class(spif_obj_t self, spif_class_t cls) { self->cls = cls; return TRUE; }
-#define MCOPY (URL_MAX + 1)         /* no single copy within the bound is longer than the text + NUL */
+#define MCOPY (URL_MAX + 9)         /* longest copy within the bound: canonical text ("//" and ":65535" added) + NUL */
 static void m_copy(char *d, const char *s, spif_stridx_t n)
 {
     int i;
@@ -264,6 +354,9 @@ void harness(void)
 #else
     pick(&query, A_ALNUM | A_DOT | A_COLON | A_AT | A_QM, 1);
 #endif
+    /* behaviour split (union of the units = every presence vector) */
+    proto.has = (U_PROTO != 0);
+    if (U_USER >= 0) user.has = (U_USER != 0);
     /* shape */
     __CPROVER_assume(!path.has || path.c[0] == '/');
     __CPROVER_assume(host.has || path.has);                       /* something to parse */
